@@ -3,16 +3,19 @@
 from lib.coqterm import cbytes, cbool, copt, clist, cpair, cN, cZ, hx, unhx
 
 ID = "C35"
-QUICK_N = 2500
-THOROUGH_N = 25000
-SHARD = 250
+QUICK_N = 2000
+THOROUGH_N = 16000
+SHARD = 100
 COQ_PRELUDE = "From MV Require Import Model.Headers.\n"
 RULE = ("60% operation histories on two Headers objects (0-25 ops: getitem/in/setitem/del/get_all/set_all/add/insert/"
         "iter/len/==/copy; names from {A,a,B,b,Ab,aB,AB,ab} plus 15% adversarial names (empty, non-ASCII, utf-8 upper/lower, "
         "Content-Type spellings), keys passed as str or bytes, insert indices in [-len-2, len+2]); 25% field lists for the "
         "HTTP/1 round trip (70% of them valid-only, rest with colon/leading blank/CR/LF/obs-fold/whitespace tokens); 10% "
         "arbitrary line lists for _read_headers (continuations, empty lines, no colon); 5% arbitrary data for h11 line "
-        "extraction. Thorough adds every history of <= 3 ops over 22 op instances from two initial states. Non-trivial = "
+        "extraction. Thorough adds every history of <= 3 ops over 22 op instances from two initial states. On object 0 before the history and on "
+        "the touched object after EVERY operation all read views of the real Headers class are observed and compared with the "
+        "model and with the oracle: items(), keys(), values(), items/keys/values(multi=True), list(h), len, bytes(h), copy()==h, "
+        "copy().fields, and get_all/[]/in for first/last/swapped-case names (str and bytes). Non-trivial = "
         "history with a mutation and a repeated case-insensitive name, or a non-empty field/line list; distinct by canonical JSON.")
 TRUSTED = ["Coq 8.16.1 kernel (coqc), vm_compute for case evaluation",
            "harness/props/C35.py generator, runner and comparison glue (Corr/C35.v)",
@@ -201,15 +204,59 @@ def _rh(lines):
         return ["IndexError"]
 
 
+def _probe_names(names):
+    """a few lookup names derived from the stored spellings: first, last, last with swapped case"""
+    cand = ([names[0], names[-1], names[-1].swapcase()] if names else [b"A"])
+    out = []
+    for c in cand:
+        if c not in out:
+            out.append(c)
+    return out
+
+
+def _view(h):
+    """EVERY read view of the real Headers object (each through its own public entry point)."""
+    def opt(f):
+        try:
+            return f()
+        except Exception:  # an exception escaping a read view is its own observable value
+            return None
+    e = lambda x: hx(_b(x))
+    v = {"items": opt(lambda: [[e(k), e(x)] for k, x in h.items()]),
+         "keys": opt(lambda: [e(k) for k in h.keys()]),
+         "values": opt(lambda: [e(x) for x in h.values()]),
+         "itm": [[e(k), e(x)] for k, x in h.items(multi=True)],
+         "km": [e(k) for k in h.keys(multi=True)],
+         "vm": [e(x) for x in h.values(multi=True)],
+         "it": [e(k) for k in h],
+         "len": len(h),
+         "bytes": hx(bytes(h))}
+    c = h.copy()
+    v["ceq"] = bool(c == h) and bool(h == c)
+    v["cf"] = _fl(c)
+    probes = []
+    for i, k in enumerate(_probe_names([n for n, _ in h.fields])):
+        arg = _s(k) if i % 2 else k
+        try:
+            gi = e(h[arg])
+        except KeyError:
+            gi = None
+        probes.append([hx(k), [e(x) for x in h.get_all(arg)], gi, arg in h])
+    v["probes"] = probes
+    return v
+
+
 def run_impl(case):
     k = case["k"]
     if k == "hist":
         hs = [Headers([(unhx(n), unhx(v)) for n, v in case["i0"]]), Headers([(unhx(n), unhx(v)) for n, v in case["i1"]])]
         steps = []
+        views = [_view(hs[0])]
         for op in case["ops"]:
             r = _run_op(hs, op)
             steps.append([r, _fl(hs[_target(op)])])
-        return {"steps": steps, "f0": _fl(hs[0]), "f1": _fl(hs[1])}
+            views.append(_view(hs[_target(op)]))
+        return {"steps": steps, "f0": _fl(hs[0]), "f1": _fl(hs[1]), "views": views}
     if k == "rt":
         h = Headers([(unhx(n), unhx(v)) for n, v in case["fields"]])
         b = bytes(h)
@@ -277,12 +324,21 @@ def _crh(p):
     return "RhValueError" if p[0] == "ValueError" else "RhIndexError"
 
 
+def _cview(v):
+    probes = clist((f"({_cb(k)}, {_cbl(ga)}, {copt(gi, _cb, 'bytes')}, {cbool(co)})" for k, ga, gi, co in v["probes"]),
+                   "(bytes * list bytes * option bytes * bool)")
+    return (f"(View {copt(v['items'], _cfields, '(list field)')} {copt(v['keys'], _cbl, '(list bytes)')} "
+            f"{copt(v['values'], _cbl, '(list bytes)')} {_cfields(v['itm'])} {_cbl(v['km'])} {_cbl(v['vm'])} {_cbl(v['it'])} "
+            f"{cN(v['len'])} {_cb(v['bytes'])} {cbool(v['ceq'])} {_cfields(v['cf'])} {probes})")
+
+
 def coq_case(case, obs):
     k = case["k"]
     if k == "hist":
         ops = clist((f"({_cop(o)})" for o in case["ops"]), "op")
         steps = clist((cpair(f"({_cres(r)})", _cfields(fs)) for r, fs in obs["steps"]), "(result * list field)")
-        return f"Hist {_cfields(case['i0'])} {_cfields(case['i1'])} {ops} {steps} {_cfields(obs['f0'])} {_cfields(obs['f1'])}"
+        views = clist((_cview(v) for v in obs["views"]), "view")
+        return f"Hist {_cfields(case['i0'])} {_cfields(case['i1'])} {ops} {steps} {_cfields(obs['f0'])} {_cfields(obs['f1'])} {views}"
     if k == "rt":
         return (f"Rt {_cfields(case['fields'])} {_cb(obs['bytes'])} {copt(obs['lines'], _cbl, '(list bytes)')} "
                 f"{copt(obs['parsed'], _crh, 'rh_result')}")
@@ -340,8 +396,30 @@ def _others(fs, k):
     return [f for f in fs if f[0].lower() != c]
 
 
+def _view_violation(ref, view, where):
+    """every read view must show the ordered ci-multimap: names in first spelling, values folded"""
+    firsts = ref.first_names()
+    folded = [b", ".join(ref.get_all(n)) for n in firsts]
+    h = lambda l: [hx(x) for x in l]
+    exp = {"items": [[hx(n), hx(v)] for n, v in zip(firsts, folded)], "keys": h(firsts), "values": h(folded),
+           "itm": [[hx(n), hx(v)] for n, v in ref.e], "km": h(n for n, _ in ref.e), "vm": h(v for _, v in ref.e),
+           "it": h(firsts), "len": len(firsts), "bytes": hx(b"".join(n + b": " + v + b"\r\n" for n, v in ref.e)),
+           "ceq": True, "cf": [[hx(n), hx(v)] for n, v in ref.e]}
+    for key, val in exp.items():
+        if view[key] != val:
+            return [{"key": "view-" + key, "what": f"{where}: read view {key} is {view[key]}, ordered ci-multimap gives {val} (fields {ref.e})"}]
+    for k, ga, gi, co in view["probes"]:
+        vs = ref.get_all(unhx(k))
+        if ga != h(vs) or gi != (hx(b", ".join(vs)) if vs else None) or co != bool(vs):
+            return [{"key": "view-lookup", "what": f"{where}: lookup of {unhx(k)} gives {ga}/{gi}/{co} on fields {ref.e}"}]
+    return []
+
+
 def _oracle_hist(case, obs):
     refs = [_Ref([(unhx(n), unhx(v)) for n, v in case["i0"]]), _Ref([(unhx(n), unhx(v)) for n, v in case["i1"]])]
+    v = _view_violation(refs[0], obs["views"][0], "initial object")
+    if v:
+        return v
     for step, (op, (res, fs)) in enumerate(zip(case["ops"], obs["steps"])):
         kind = op[0]
         t = op[1] if len(op) > 1 else 0
@@ -385,6 +463,9 @@ def _oracle_hist(case, obs):
             return [{"key": "history-fields", "what": f"step {step} {op}: fields {got} expected {tgt.e}"}]
         if kind in ("set", "del", "setall") and _others(got, unhx(op[2])) != _others(before, unhx(op[2])):
             return [{"key": "untouched-fields", "what": f"step {step} {op}: untouched fields changed spelling/order"}]
+        v = _view_violation(tgt, obs["views"][step + 1], f"after step {step} {op}")
+        if v:
+            return v
     for i, key in ((0, "f0"), (1, "f1")):
         if [(unhx(n), unhx(v)) for n, v in obs[key]] != refs[i].e:
             return [{"key": "history-final", "what": f"final fields of object {i} differ (aliasing between copies?)"}]
